@@ -44,6 +44,7 @@ type Contract struct {
 	Scope         []*Expr // domain restriction of the functional clauses: assumed when they are checked; callers get scope ==> ensures
 	Ensures       []*Expr
 	Checks        []*Expr // postconditions that mention internal variables (witnesses): verified, not exported to callers
+	OnPanic       []*Expr // exceptional postconditions: hold in the state in which the function panics explicitly
 	Names         []*Expr // definitional clauses: assumed at call sites, never checked (they name the verdict of a deterministic operation)
 	Assigns       []*Expr
 	HasAssigns    bool
@@ -120,7 +121,7 @@ type ContractSet struct {
 }
 
 var clauseKeywords = map[string]bool{"func": true, "interface": true, "spec": true, "abstract": true, "requires": true, "ensures": true,
-	"assigns": true, "loop": true, "decreases": true, "arith": true, "pure": true, "lemma": true, "trusted": true, "noframe": true, "invariant": true, "nonnil": true, "names": true, "ospec": true, "checks": true, "counted": true, "axiom": true, "monitor": true, "scope": true, "deterministic": true, "framecaller": true, "chaninvariant": true, "monitorinvariant": true}
+	"assigns": true, "loop": true, "decreases": true, "arith": true, "pure": true, "lemma": true, "trusted": true, "noframe": true, "invariant": true, "nonnil": true, "names": true, "ospec": true, "checks": true, "counted": true, "axiom": true, "monitor": true, "scope": true, "deterministic": true, "framecaller": true, "chaninvariant": true, "monitorinvariant": true, "onpanic": true}
 
 func loadContracts(files []string) (*ContractSet, error) {
 	cs := &ContractSet{funcs: map[string]*Contract{}, ifaces: map[string]*Contract{}, specs: map[string]*specFn{}, invs: map[string][]*TypeInv{}, nonnil: map[string]bool{}}
@@ -321,7 +322,7 @@ func (cs *ContractSet) loadFile(path string) error {
 				cs.lemmas = append(cs.lemmas, lm)
 			}
 			cur = nil
-		case "requires", "ensures", "decreases", "names", "checks", "scope":
+		case "requires", "ensures", "decreases", "names", "checks", "scope", "onpanic":
 			if cur == nil {
 				return fail(fmt.Errorf("clause outside a contract"))
 			}
@@ -338,6 +339,8 @@ func (cs *ContractSet) loadFile(path string) error {
 				cur.Names = append(cur.Names, e)
 			case "checks":
 				cur.Checks = append(cur.Checks, e)
+			case "onpanic":
+				cur.OnPanic = append(cur.OnPanic, e)
 			case "scope":
 				cur.Scope = append(cur.Scope, e)
 			default:
